@@ -185,6 +185,10 @@ def run_program(pr):
             res["state_after"] = p._txn_manager.state.name
             res["txn_partitions"] = sorted(tp.partition for tp in p._txn_manager._txn_partitions)
             res["group_added"] = p._txn_manager._txn_consumer_group is not None
+            # the error stored for commit_transaction() to re-raise (TransactionManager._transaction_waiter)
+            w = p._txn_manager._transaction_waiter
+            we = w.exception() if (w is not None and w.done() and not w.cancelled()) else None
+            res["stored_error"] = [exc_name(we), getattr(we, "errno", None)] if we is not None else None
             t = net.tc.by_id.get(TID)
             res["coord"] = {"state": t.state, "partitions": sorted(x[1] for x in t.partitions),
                             "groups": sorted(t.groups), "n_ended": len(t.history)} if t else None
